@@ -27,11 +27,40 @@ def run(path):
         return name, "skipped", "edit does not type-check"
     alarms = [l[:220] for l in q.stdout.splitlines() if l.startswith("VIOLATED") or l.startswith("NOT-ESTABLISHED")]
     return name, ("FALSE-ALARM" if alarms else "silent"), alarms[:4]
+def run_patch(path):
+    """an independent behaviour-preserving refactoring (seeded/refactors/<area>/rN.diff): applied to temporary copies"""
+    import shutil
+    name = os.path.relpath(path, os.path.join(here, "seeded", "refactors"))[:-5].replace("/", "-")
+    patch = open(path).read()
+    files = [l[6:].strip() for l in patch.splitlines() if l.startswith("+++ b/")]
+    tmp = tempfile.mkdtemp()
+    try:
+        for f in files:
+            os.makedirs(os.path.dirname(os.path.join(tmp, f)), exist_ok=True)
+            if os.path.exists(os.path.join(repo, f)):
+                shutil.copy(os.path.join(repo, f), os.path.join(tmp, f))
+        pr = subprocess.run(["patch", "-p1", "-s", "-d", tmp], input=patch, text=True, stdout=subprocess.PIPE, stderr=subprocess.STDOUT)
+        if pr.returncode != 0:
+            return name, "skipped", "patch no longer applies"
+        args = []
+        for f in files:
+            args += ["-overlay", os.path.join(repo, f) + "=" + os.path.join(tmp, f)]
+        q = subprocess.run([trsa, "-prop", "all", "-repo", repo, "-verif", here, "-no-evidence"] + args, stdout=subprocess.PIPE, stderr=subprocess.STDOUT, text=True)
+    finally:
+        shutil.rmtree(tmp, ignore_errors=True)
+    if "type-check/load errors" in q.stdout:
+        return name, "skipped", "does not type-check on this tree"
+    alarms = [l[:220] for l in q.stdout.splitlines() if l.startswith("VIOLATED") or l.startswith("NOT-ESTABLISHED")]
+    return name, ("FALSE-ALARM" if alarms else "silent"), alarms[:4]
 with concurrent.futures.ThreadPoolExecutor(max_workers=6) as ex:
     files = sorted(glob.glob(os.path.join(here, "seeds", "benign", "*.json")))
     if only:
         files = [f for f in files if os.path.basename(f)[:-5] in only]
     res = list(ex.map(run, files))
+    pfiles = sorted(glob.glob(os.path.join(here, "seeded", "refactors", "*", "r*.diff")))
+    if only:
+        pfiles = [f for f in pfiles if os.path.relpath(f, os.path.join(here, "seeded", "refactors"))[:-5].replace("/", "-") in only]
+    res += list(ex.map(run_patch, pfiles))
 bad = 0
 for name, st, info in res:
     print("%-12s %s %s" % (st, name, info if st != "silent" else ""))
